@@ -45,6 +45,16 @@ finally:
     sh(f"git -C /repo worktree remove --force {wt}")
 out = f"/verif/seeded/{name}"
 os.makedirs(out, exist_ok=True)
+prev = None
+if os.path.exists(os.path.join(out, "meta.json")):
+    prev = json.load(open(os.path.join(out, "meta.json")))
+    pc = prev.get("confirmed", {})
+    if not run_tests:
+        res["tests"] = pc.get("tests"); res["tests_pass"] = pc.get("tests_pass")
+    # remember the first verdict (before any strengthening of the checks)
+    meta["first_result"] = prev.get("first_result", {k: v.get("exit") for k, v in pc.get("checks", {}).items()})
+    if prev.get("strengthened"):
+        meta["strengthened"] = prev["strengthened"]
 for f in ("patch.diff", "demo.py"):
     shutil.copy(os.path.join(src, f), os.path.join(out, f))
 meta.update({"confirmed": res, "ran": "tools/try_mutant.py: patch applied in a scratch worktree of /repo; demo on mutant and on clean /repo; full pytest on mutant; ./check <id> quick (thorough if quick missed) with QV_REPO=<scratch>"})
